@@ -17,6 +17,7 @@ class StrStream(FM.FormulaStream):
     n_thorough = 18000
     p_missing = (0.0, 0.0, 0.1)
     p_unaligned = 0.1
+    p_stall = 0.05
 
     def gen(self, rng, tier):
         n = self.n_quick if tier == "quick" else self.n_thorough
@@ -26,6 +27,10 @@ class StrStream(FM.FormulaStream):
             c["rows"] = FM.gen_rows(rng, sorted(FM.ast_vars(c["ast"])), rng.randint(2, 4), pm)
             if rng.random() < self.p_unaligned:
                 c["pre_rows"] = FM.gen_pre_rows(rng, sorted(FM.ast_vars(c["ast"])))
+            elif len(FM.ast_vars(c["ast"])) > 1 and rng.random() < self.p_stall:
+                names = sorted(FM.ast_vars(c["ast"]))
+                c["rows"] = FM.gen_rows(rng, names, rng.randint(10, 12), 0.0)
+                c["stall"] = FM.gen_stall(rng, names, len(c["rows"]))
             yield c
         if tier == "thorough":      # every AST of depth <= 2 over three variables
             for ast in FM.all_asts(2, [1, 2, 3]):
@@ -69,6 +74,8 @@ class StrStream(FM.FormulaStream):
             out.append("odd_whitespace")
         if case.get("pre_rows"):
             out.append("unaligned_start")
+        if case.get("stall"):
+            out.append(f"one_input_stalls_{case['stall'][2] * 10}s_then_catches_up")
         for k, row in enumerate(case["rows"]):
             if FM.eval_ast(a, row, True) is None:
                 out.append("zero_divisor")
@@ -86,6 +93,7 @@ class HoStream(FM.FormulaStream):
     p_missing = (0.0, 0.0, 0.1)
     p_src_nz = 0.1
     p_unaligned = 0.1
+    p_stall = 0.05
 
     def gen(self, rng, tier):
         n = self.n_quick if tier == "quick" else self.n_thorough
@@ -96,6 +104,9 @@ class HoStream(FM.FormulaStream):
             c["src_nz"] = {str(k): rng.random() < self.p_src_nz for k in names}
             if rng.random() < self.p_unaligned:
                 c["pre_rows"] = FM.gen_pre_rows(rng, names)
+            elif len(names) > 1 and rng.random() < self.p_stall:
+                c["rows"] = FM.gen_rows(rng, names, rng.randint(10, 12), 0.0)
+                c["stall"] = FM.gen_stall(rng, names, len(c["rows"]))
             yield c
 
     def to_coq(self, case, obs):
@@ -132,6 +143,8 @@ class HoStream(FM.FormulaStream):
             out.append(f"engines_built={min(len(obs['builds']), 5)}")
         if case.get("pre_rows"):
             out.append("unaligned_start")
+        if case.get("stall"):
+            out.append(f"one_input_stalls_{case['stall'][2] * 10}s_then_catches_up")
         if case.get("perturb"):
             out.append("builders_reused_after_combination")
         if obs.get("out") and any(o is None for o in obs["out"]):
@@ -176,8 +189,56 @@ class SignedStream(FM.FormulaStream):
         return out + FM.row_labels(case)
 
 
+class PoolStream(FM.FormulaStream):
+    """FormulaEnginePool.from_string (LogicalMeter.start_formula): several requests on one pool --
+    same string / other metric, other string / same metric, identical requests again -- with
+    distinguishable per-metric inputs; every request is judged on the streams of ITS metric."""
+    name = "pool"
+    check_fn = "check_pool"
+    n_quick = 200
+    n_thorough = 4000
+
+    def gen(self, rng, tier):
+        a, b = ["b", "+", ["v", 1], ["v", 2]], ["b", "-", ["v", 1], ["b", "*", ["v", 2], ["v", 3]]]
+        yield {"kind": "pool", "requests": [[a, 0, False], [b, 0, False], [a, 1, False], [a, 0, False], [b, 2, True], [a, 1, True]],
+               "rows": [{f"{m}:{i}": (m + 2) * 100 + 10 * i + k for m in (0, 1, 2) for i in (1, 2, 3)} for k in range(3)]}
+        for _ in range(self.n_quick if tier == "quick" else self.n_thorough):
+            yield FM.gen_pool_case(rng)
+
+    def to_coq(self, case, obs):
+        return FM.term_pool(case, obs)
+
+    def oracle(self, case, obs):
+        out = []
+        if "error" in obs:
+            return [{"what": f"rejected: a well-formed formula raised {obs['error']}", "finding": None}]
+        for i, ((ast, m, nz), d) in enumerate(zip(case["requests"], obs["requests"])):
+            sub = []
+            flag = FM.pool_first_flag(case, i)
+            FM.judge_rows({"rows": [FM.pool_row(r, m) for r in case["rows"]]}, d,
+                          lambda row: FM.eval_ast(ast, row, flag), sub)
+            for v in sub:
+                v["what"] = v["what"].split(":")[0] + f": request #{i + 1} ({FM.render(ast, [1])!r} on metric {FM.POOL_METRICS[m]}): " + v["what"].split(":", 1)[1]
+            out += sub
+        return out
+
+    def key(self, case, obs):
+        return json.dumps([case["requests"], case["rows"]], sort_keys=True)
+
+    def labels(self, case, obs):
+        out = [f"requests={len(case['requests'])}"]
+        reqs = [(json.dumps(a), m) for a, m, _ in case["requests"]]
+        if len({a for a, _ in reqs}) < len({(a, m) for a, m in reqs}):
+            out.append("same_string_two_metrics")
+        if len(set(reqs)) < len(reqs):
+            out.append("identical_request_repeated")
+        if len({m for _, m in reqs}) < len({(a, m) for a, m in reqs}):
+            out.append("two_strings_one_metric")
+        return out + FM.row_labels(case)
+
+
 def streams():
-    return [StrStream(), HoStream(), SignedStream(), FM.FloatBoundaryStream()]
+    return [StrStream(), HoStream(), SignedStream(), FM.FloatBoundaryStream(), PoolStream()]
 
 
 ASSUMPTIONS = [
